@@ -540,11 +540,6 @@ def run_schedule(case, phases=None):
                      "lock_pid": (procs[lp].pid if lp is not None and lp < n else (999999 if lp is not None else None))})
         order = {str(d): [] for d in range(nd)}     # per stack: real pids, newest lock file first
         trace, executed = [], []
-        # race monitors, evaluated on the real run (class predicates of the known findings), per stack
-        aflag = [[False] * nd for _ in range(n)]
-        bflag = [[False] * nd for _ in range(n)]
-        # ... and the same events anywhere on the stack (the form of the classification that is a theorem)
-        ev = [{"a": False, "b": False, "c": False} for _ in range(nd)]
         viols = []
 
         def split(name):
@@ -552,10 +547,6 @@ def run_schedule(case, phases=None):
                 c, d = name.rsplit("@", 1)
                 return c, (int(d) if d.isdigit() else None)
             return name, (0 if not multi else None)
-
-        def inflight(q, d):
-            c, dd = split(procs[q].pending)
-            return c in ("scan_ex", "create") and dd == d
 
         def current_violators(record):
             v = []
@@ -573,12 +564,9 @@ def run_schedule(case, phases=None):
                     v.append([a, b])
                     if record:
                         d = ds[0]
-                        cls = "D12c" if d not in procs[b].held else "D12b" if (bflag[a][d] or bflag[b][d]) else \
-                              "D12a" if (aflag[a][d] or aflag[b][d]) else None
-                        if cls is None:
-                            # no race hit the pair itself: one that hit somebody else on this stack (their parent, say)
-                            cls = "D12b" if ev[d]["b"] else "D12a" if ev[d]["a"] else "D12c" if ev[d]["c"] else None
-                        viols.append({"step": len(trace), "pair": [a, b], "dir": d, "class": cls})
+                        # the repaired protocol has no known race left: every violation is outside every finding class
+                        viols.append({"step": len(trace), "pair": [a, b], "dir": d, "class": None,
+                                      "unlocked": d not in procs[b].held})
             return v
 
         def one(i):
@@ -587,7 +575,6 @@ def run_schedule(case, phases=None):
             if p.pending is None:
                 trace.append([i, "-", "-", current_violators(False)])
                 return
-            before = [[inflight(q, d) for d in range(nd)] for q in range(n)]
             name, res = p.go(order)
             if p.body_from_fs and p.nlocks is None:
                 # a real command line: which locks it holds is read off the file system when its body starts
@@ -601,23 +588,6 @@ def run_schedule(case, phases=None):
                                 p.held_kinds.append("E" if f.startswith("exclusive-") else "S")
                 p.nlocks = len(p.held)
             c, d = split(name)
-            nc, _nd = split(p.pending)
-            if d is not None and 0 <= d < nd:
-                if c == "mkdir":
-                    aflag[i][d] = bflag[i][d] = False
-                if (c == "scan_ex" and nc in ("scan_ex", "create")) or (c == "scan_all" and nc == "scan_ex"):
-                    # an admission test passed (the "exclusive*" listing, or the parent test of an exclusive request)
-                    if any(q != i and not related(specs, i, q) and before[q][d] and
-                           (specs[i]["kind"] == "E" or specs[q]["kind"] == "E") for q in range(n)):
-                        aflag[i][d] = True
-                        ev[d]["a"] = True
-                if c == "rmdir" and res == "ok":
-                    for q in range(n):
-                        if q != i and before[q][d]:
-                            bflag[q][d] = True
-                            ev[d]["b"] = True
-                if c == "exists_dir" and res == "False":
-                    ev[d]["c"] = True
             if c == "create" and res == "ok" and d is not None and p.pid not in order[str(d)]:
                 order[str(d)].insert(0, p.pid)
             if c == "remove" and res == "ok" and d is not None and p.pid in order[str(d)]:
